@@ -26,6 +26,7 @@ import (
 	"github.com/cornelk/hashmap"
 	"github.com/pkg/errors"
 
+	"rcproxy/core/pkg/constant"
 	"rcproxy/core/pkg/logging"
 	"rcproxy/core/pkg/redis"
 )
@@ -108,24 +109,26 @@ func (c *ClusterNodes) loopClusterNodes() {
 	for {
 		select {
 		case msg := <-EngineGlobal.clusterChan:
-			if len(msg) < 3 {
-				return
+			// Only a non-nil bulk reply can carry the node table. Anything else (status, error, nil,
+			// truncated or oversized text) is skipped; the loop must stay alive for the next probe.
+			if len(msg) < 3 || msg[0] != '$' {
+				continue
 			}
-			if msg[0] == '+' && msg[1] == 'O' && msg[2] == 'K' {
-				return
-			}
-			if msg[0] == '$' && msg[1] == '-' && msg[2] == '1' {
-				return
+			if msg[1] == '-' {
+				continue
 			}
 
 			length, err := parseLen(msg[1 : bytes.IndexByte(msg, '\n')-1])
 			if err != nil {
 				logging.Errorf("[cluster loop] update cluster nodes: nodes info invalid: %s", err)
-				return
+				continue
 			}
 			if length > 163840 {
 				logging.Errorf("[cluster loop] update cluster nodes: nodes info too large > 163840")
-				return
+				continue
+			}
+			if bytes.IndexByte(msg, '\n')+1 > len(msg)-3 {
+				continue
 			}
 
 			if err := c.updateClusterNodes(string(msg[bytes.IndexByte(msg, '\n')+1 : len(msg)-3])); err != nil {
@@ -370,11 +373,17 @@ func (c *ClusterNode) parseSlot(slotsStr string) (int32, int32, error) {
 		return -1, -1, errors.New("slot parse failed")
 	}
 	if len(slots) <= 1 {
+		if start < 0 || start >= constant.RedisClusterSlots {
+			return -1, -1, errors.New("slot invalid")
+		}
 		return int32(start), int32(start), nil
 	}
 	end, err = strconv.ParseInt(slots[1], 10, 32)
 	if err != nil {
 		return -1, -1, errors.New("slot parse failed")
+	}
+	if start < 0 || end < start || end >= constant.RedisClusterSlots {
+		return -1, -1, errors.New("slot range invalid")
 	}
 	return int32(start), int32(end), nil
 }
